@@ -4,6 +4,7 @@ package main
 
 import (
 	"fmt"
+	"go/token"
 	"go/types"
 	"strings"
 
@@ -295,6 +296,63 @@ func runC04(c *Ctx) {
 			cs := CallsTo(Calls(fn), a.callee)
 			okc := len(cs) == 1 && stripAmp(Term(cs[0].Common().Value)) == "b.adapter"
 			c.Ob("C04-D3", name+"/calls-adapter", fn.Pos(), okc, a.fn+" must call its own adapter once")
+		}
+	}
+
+	c.Rule("C04-D6", "modifiers carry the whole selection over: every BroadcastOperator method that returns a new operator (To, In, Except, Compress, Local) starts from a copy of its receiver — the result is a whole-struct copy of *b, "+
+		"or every field of the receiver is read to build it — so a flag modifier applied after Except keeps the excluded rooms and one applied after To keeps the target rooms", 5)
+	{
+		nt := p.Named("adapter", "BroadcastOperator")
+		st, _ := nt.Underlying().(*types.Struct)
+		n := 0
+		for i := 0; i < nt.NumMethods(); i++ {
+			m := nt.Method(i)
+			fn := p.Prog.FuncValue(m)
+			if fn == nil || fn.Blocks == nil || st == nil {
+				continue
+			}
+			res := fn.Signature.Results()
+			if res.Len() != 1 || !strings.HasSuffix(res.At(0).Type().String(), "BroadcastOperator") {
+				continue
+			}
+			n++
+			wholeCopy := false
+			read := map[string]bool{}
+			// an alias (`return b.To(room...)`) delegates to a modifier that is checked itself
+			for _, ret := range effReturns(fn) {
+				if call, ok := ret.Results[0].(*ssa.Call); ok && call.Call.StaticCallee() != nil && len(call.Call.Args) > 0 && call.Call.Args[0] == ssa.Value(fn.Params[0]) {
+					if rs := call.Call.StaticCallee().Signature.Recv(); rs != nil && strings.HasSuffix(rs.Type().String(), "BroadcastOperator") {
+						wholeCopy = true
+					}
+				}
+			}
+			for _, f := range WithAnons(fn) {
+				for _, in := range findInstrs(f, func(ssa.Instruction) bool { return true }) {
+					switch x := in.(type) {
+					case *ssa.Store:
+						// n := *b
+						if ld, ok := x.Val.(*ssa.UnOp); ok && ld.Op == token.MUL && resolveParam(ld.X) == ssa.Value(fn.Params[0]) {
+							if _, isAlloc := x.Addr.(*ssa.Alloc); isAlloc {
+								wholeCopy = true
+							}
+						}
+					case *ssa.FieldAddr:
+						if resolveParam(x.X) == ssa.Value(fn.Params[0]) {
+							read[fieldName(x.X.Type(), x.Field)] = true
+						}
+					}
+				}
+			}
+			var missing []string
+			for j := 0; j < st.NumFields(); j++ {
+				if !read[fdisp(st.Field(j))] {
+					missing = append(missing, fdisp(st.Field(j)))
+				}
+			}
+			c.Ob("C04-D6", "adapter.BroadcastOperator."+m.Name()+"/carries-selection-over", fn.Pos(), wholeCopy || len(missing) == 0, fmt.Sprintf("%s builds its result neither as a copy of its receiver nor from all of its fields; never read: %v — what the caller had selected there (target rooms, excluded rooms, flags) is lost", m.Name(), missing))
+		}
+		if n < 5 {
+			c.Undecided("C04-D6: found %d BroadcastOperator modifiers, expected at least 5", n)
 		}
 	}
 
